@@ -166,6 +166,12 @@ class ExprMixin(object):
             raise AnalysisError("E5.attr", "class attribute %s" % name, node, module)
         if isinstance(base, ExtVal):
             return ExtVal(base.dotted + "." + name)
+        if isinstance(base, Opaque) and not base.is_str:
+            # attribute of an unknown object (e.g. the other operand of ==): opaque, but callable
+            o = Opaque("attr:%s.%s" % (base.tag, name), set(base.deps) | {"opaque:" + base.tag})
+            o.recv = base
+            o.attr = name
+            return o
         return ValMeth(base, name)
 
     def e_Subscript(self, st, env, node, module):
@@ -196,7 +202,31 @@ class ExprMixin(object):
             return Opaque("slice", deps_of(base))
         raise AnalysisError("E5.slice", "slice of %r" % (base,), node, module)
 
+    def _lookup_ite(self, st, idx, look):
+        """lookup(ITE(c, a, b)) = ITE(c, lookup(a), lookup(b)), each arm under its own assumption."""
+        c, a, b = idx.args
+        outs = []
+        for cond, key in ((c, a), (mk_not(c), b)):
+            saved = (dict(st.dom), set(st.facts), list(st.constraints))
+            try:
+                self.assume(st, cond)
+                outs.append(look(key))
+            except Dead:
+                outs.append(None)
+            st.dom, st.facts, st.constraints = saved
+        if outs[0] is None and outs[1] is None:
+            raise Dead()
+        if outs[0] is None:
+            self.assume(st, mk_not(c))
+            return outs[1]
+        if outs[1] is None:
+            self.assume(st, c)
+            return outs[0]
+        return self.mk_ite(st, c, outs[0], outs[1])
+
     def subscript(self, st, base, idx, node, module):
+        if isinstance(idx, App) and idx.op == "ite" and not isinstance(base, (TupleVal,)):
+            return self._lookup_ite(st, idx, lambda k: self.subscript(st, base, k, node, module))
         if isinstance(base, Ref):
             o = st.heap[base.id]
             if o.kind == "map":
@@ -348,6 +378,8 @@ class ExprMixin(object):
     def map_get(self, st, o, idx, node, module, strict, default=None):
         if isinstance(idx, Fin):
             idx = st.folder().restrict(idx)
+        if isinstance(idx, App) and idx.op == "ite":
+            return self._lookup_ite(st, idx, lambda k: self.map_get(st, o, k, node, module, strict, default))
         if isinstance(idx, Const):
             k = idx.v
             if k not in o.entries:
